@@ -90,6 +90,16 @@ def topics? (w : String) : Option Bytes := do
   let b ← ofHex? w
   if b.length % 32 = 0 then some b else none
 
+/-- `k1 v1 k2 v2 …`, all 32-byte words -/
+def pairs? : List String → Option (List (Key × Val))
+  | [] => some []
+  | [_] => none
+  | k :: v :: rest => do
+    let k ← hash? k
+    let v ← hash? v
+    let r ← pairs? rest
+    pure ((k, v) :: r)
+
 def parseOp (ws : List String) : Option Op :=
   match ws with
   | ["setnonce", a, n] => do some (.setNonce (← addr? a) (← u64? n))
@@ -126,6 +136,14 @@ def parseOp (ws : List String) : Option Op :=
   | ["codesize", a] => do some (.qCodeSize (← addr? a))
   | ["codehash", a] => do some (.qCodeHash (← addr? a))
   | ["getft", a, k] => do some (.qFT (← addr? a) (← ftkey? k))
+  | ["allrefund", a] => do some (.qAllRefund (← addr? a))
+  | ["addbinding", name, b, ct, p, d] => do
+    let nm ← ofHex? name
+    if nm.take 4 ≠ "bind".toUTF8.toList then none else
+    some (.addBinding (← addr? b) (← addr? ct) (← u64? p) (← u64? d))
+  | "setstorage" :: a :: rest => do
+    let kvs ← pairs? rest
+    if (kvs.map (·.1)).Nodup then some (.setStorage (← addr? a) kvs) else none
   | _ => none
 
 /-- addresses whose balance slot key an op needs -/
@@ -152,13 +170,17 @@ def answer (c : Cfg) (s : ADB) (ws : List String) : Op → String
   | .qNonce a => toString (getNonce s a).2
   | .qData a k =>
     let v := (getData s a k).2
-    if ws.head? == some "getstate" then toHex (toHash v) else toHex v
+    if ws.head? == some "getstate" then toHex (getState s a k).2 else toHex v
   | .qCommitted a k => toHex (toHash (getCommitted s a k).2)
   | .qSuicided a => b2s (hasSuicided s a).2
   | .qCode a => toHex (getCode s a).2
   | .qCodeSize a => toString (getCodeSize s a).2
   | .qCodeHash a => toHex (getCodeHash s a).2
   | .qFT a k => toString (getFT s a k).2
+  | .qAllRefund a =>
+    let r := (getAllRefund s a).2
+    if r.isEmpty then "-" else String.intercalate "," ((sortKV r).map (fun p => toHex p.1 ++ "=" ++ toString p.2))
+  | .addBinding b ct p d => b2s (addERC20Binding s b ct p d).2
   | _ => "ok"
 
 def finish (st : St) (s' : ADB) (ans : String) : St × String :=
@@ -229,12 +251,12 @@ def stepLine (st : St) (line : String) : St × String :=
     match addr? a, nat? n with
     | some a, some n =>
       if (mget st.keys a).isNone then (st, "bad-op") else
-      let r := getBalance c s a
-      finish st r.1 (b2s (decide (r.2 ≥ n)))
+      let r := canTransfer c s a n
+      finish st r.1 (b2s r.2)
     | _, _ => (st, "bad-op")
   | ["iscontract", a] =>
     match addr? a with
-    | some a => let r := getCode s a; finish st r.1 (b2s (!r.2.isEmpty))
+    | some a => let r := isContract s a; finish st r.1 (b2s r.2)
     | none => (st, "bad-op")
   | _ =>
     match parseOp ws with
